@@ -44,7 +44,7 @@ cd /verif
 git -C /repo worktree remove --force $wt
 rm -rf /tmp/seed/v-$id-target
 echo "== (4) the check, in isolation"
-env -u CARGO_TARGET_DIR tools/mutcheck.py $id $out/patch.diff > /tmp/seed/v-$id-step4.log 2>&1
+env -u CARGO_TARGET_DIR tools/mutcheck.py ${id%%-*} $out/patch.diff > /tmp/seed/v-$id-step4.log 2>&1
 grep -E "VIOLATION|mutcheck:|theorems checked|obligation|KNOWN" /tmp/seed/v-$id-step4.log | tail -6
 echo "spec keys: $(grep -ohE 'FAIL:[A-Za-z0-9_:.-]+' /tmp/seed/v-$id-step4.log | sort | uniq -c | sort -rn | head -4 | tr '\n' ';')"
 rm -f /tmp/seed/v-$id-step4.log
